@@ -100,3 +100,142 @@ class patched:
                 setattr(obj, name, old)
         self.saved = []
         return False
+
+
+# ---------------------------------------------------------------------------
+# owning randomness, whichever standard-library door the code under test uses
+# ---------------------------------------------------------------------------
+
+class RandomFacade:
+    """Everything ``random`` / ``secrets`` / ``os.urandom`` offer, answered from ONE deterministic
+    source ``src`` with a method ``choice(pool)`` (and optionally ``index(n)`` for an integer below
+    n).  Stands in for the module objects and for names imported from them, so that a harness
+    that owns the PIN generator's randomness keeps owning it when the code under test moves from
+    ``random.choice`` to ``secrets.choice`` / ``SystemRandom`` / ``randbelow`` / ``os.urandom``."""
+
+    def __init__(self, src):
+        self.src = src
+
+    # -- the source ----------------------------------------------------------
+    def choice(self, pool):
+        return self.src.choice(pool)
+
+    def _below(self, n):
+        if n <= 0:
+            raise ValueError("empty range")
+        if hasattr(self.src, "index"):
+            return self.src.index(n)
+        return self.src.choice(range(n))
+
+    # -- random --------------------------------------------------------------
+    def seed(self, *a, **k):
+        pass
+
+    def randrange(self, start, stop=None, step=1):
+        if stop is None:
+            start, stop = 0, start
+        n = len(range(start, stop, step))
+        return start + step * self._below(n)
+
+    def randint(self, a, b):
+        return a + self._below(b - a + 1)
+
+    def randbelow(self, n):
+        return self._below(n)
+
+    _randbelow = randbelow
+
+    def getrandbits(self, k):
+        out = 0
+        for _ in range((k + 7) // 8):
+            out = (out << 8) | self._below(256)
+        return out & ((1 << k) - 1)
+
+    randbits = getrandbits
+
+    def random(self):
+        return self._below(1 << 20) / float(1 << 20)
+
+    def choices(self, population, weights=None, cum_weights=None, k=1):
+        return [self.choice(population) for _ in range(k)]
+
+    def sample(self, population, k, counts=None):
+        pool = list(population)
+        return [pool.pop(self._below(len(pool))) for _ in range(k)]
+
+    def shuffle(self, x):
+        for i in reversed(range(1, len(x))):
+            j = self._below(i + 1)
+            x[i], x[j] = x[j], x[i]
+
+    def randbytes(self, n):
+        return bytes(self._below(256) for _ in range(n))
+
+    # -- secrets / os ----------------------------------------------------------
+    token_bytes = randbytes
+    urandom = randbytes
+
+    def token_hex(self, n=32):
+        return self.randbytes(n).hex()
+
+    def token_urlsafe(self, n=32):
+        import base64
+        return base64.urlsafe_b64encode(self.randbytes(n)).rstrip(b"=").decode()
+
+    def compare_digest(self, a, b):
+        import hmac
+        return hmac.compare_digest(a, b)
+
+    # -- classes ---------------------------------------------------------------
+    def SystemRandom(self, *a, **k):
+        return self
+
+    Random = SystemRandom
+
+
+def bind_random(module, src):
+    """Point every door to randomness found in ``module``'s namespace at ``src`` (see
+    RandomFacade).  Returns a function that restores the namespace."""
+    import random as _random
+    import secrets as _secrets
+    facade = RandomFacade(src)
+    saved = {}
+    for name, val in list(vars(module).items()):
+        new = None
+        if val is _random or val is _secrets:
+            new = facade
+        elif val is _random.Random or val is _random.SystemRandom:
+            new = facade.SystemRandom
+        elif val is os.urandom:
+            new = facade.urandom
+        elif isinstance(val, _random.Random):
+            new = facade
+        elif callable(val) and isinstance(getattr(val, "__self__", None), _random.Random):
+            new = getattr(facade, getattr(val, "__name__", ""), None)
+        elif callable(val) and getattr(val, "__module__", None) == "secrets":
+            new = getattr(facade, getattr(val, "__name__", ""), None)
+        if new is not None:
+            saved[name] = val
+            setattr(module, name, new)
+    # the os name inside the module (real module or a stand-in): its urandom too
+    mod_os = vars(module).get("os")
+    os_saved = None
+    if mod_os is not None and mod_os is not os and hasattr(mod_os, "__dict__"):
+        os_saved = (mod_os, mod_os.__dict__.get("urandom", None), "urandom" in mod_os.__dict__)
+        mod_os.urandom = facade.urandom
+
+    def restore():
+        for name, val in saved.items():
+            setattr(module, name, val)
+        if os_saved is not None:
+            o, v, had = os_saved
+            if had:
+                o.urandom = v
+            else:
+                try:
+                    del o.urandom
+                except AttributeError:
+                    pass
+    restore.bound = sorted(saved)
+    restore.facade = facade
+    return restore
